@@ -457,30 +457,34 @@ def modelicaTbl : Tbl where
     | .pos | .neg => 9
     | .not => 4
 
-/-- A table as data: per operator lexeme `(lexeme, kind, level, operand level)` with kind `"bin"`, `"pre"` or
-`"pow"` (level 0 / 0).  This is the shape the translator emits. -/
-abbrev TblData := List (String × String × Nat × Nat)
+inductive Kind where
+  | bin | pow | pre
+deriving DecidableEq, Repr, Inhabited
 
-def TblData.find (d : TblData) (lexeme kind : String) : Nat × Nat :=
-  match d.find? (fun r => r.1 == lexeme && r.2.1 == kind) with
-  | some r => r.2.2
-  | none => (0, 0)
+/-- A table as data: per operator lexeme `(symbol, kind, level, operand level)`: for `bin` the `precpred` level
+and the level of the recursive call for the right operand, for `pre` level 0 and the level of the operand, for
+`pow` 0 and 0.  This is the shape the translator emits (`Generated/ExprTable.lean`), sorted by kind, then lexeme. -/
+abbrev TblData := List (Sym × Kind × Nat × Nat)
+
+def TblData.find (d : TblData) (s : Sym) (k : Kind) : Option (Nat × Nat) :=
+  match d.find? (fun r => r.1 == s && r.2.1 == k) with
+  | some r => some r.2.2
+  | none => none
 
 def Tbl.ofData (d : TblData) : Tbl where
-  lvl o := (d.find o.sym.lexeme "bin").1
-  rl o := (d.find o.sym.lexeme "bin").2
-  plvl q := (d.find q.sym.lexeme "pre").2
+  lvl o := ((d.find o.sym .bin).getD (0, 0)).1
+  rl o := ((d.find o.sym .bin).getD (0, 0)).2
+  plvl q := ((d.find q.sym .pre).getD (0, 0)).2
 
-/-- the data form of `modelicaTbl`, in the order of the alternatives of rule `expr` in `Modelica.g4` -/
+/-- the data form of `modelicaTbl` -/
 def modelicaData : TblData :=
-  [("+", "pre", 0, 9), ("-", "pre", 0, 9),
-   ("^", "pow", 0, 0), (".^", "pow", 0, 0),
-   ("*", "bin", 7, 8), ("/", "bin", 7, 8), (".*", "bin", 7, 8), ("./", "bin", 7, 8),
-   ("+", "bin", 6, 7), ("-", "bin", 6, 7), (".+", "bin", 6, 7), (".-", "bin", 6, 7),
-   ("<", "bin", 5, 6), ("<=", "bin", 5, 6), (">", "bin", 5, 6), (">=", "bin", 5, 6), ("==", "bin", 5, 6), ("<>", "bin", 5, 6),
-   ("not", "pre", 0, 4),
-   ("and", "bin", 3, 4),
-   ("or", "bin", 2, 3)]
+  [(.star, .bin, 7, 8), (.plus, .bin, 6, 7), (.minus, .bin, 6, 7),
+   (.dstar, .bin, 7, 8), (.dplus, .bin, 6, 7), (.dminus, .bin, 6, 7), (.dslash, .bin, 7, 8),
+   (.slash, .bin, 7, 8),
+   (.lt, .bin, 5, 6), (.le, .bin, 5, 6), (.ne, .bin, 5, 6), (.eq, .bin, 5, 6), (.gt, .bin, 5, 6), (.ge, .bin, 5, 6),
+   (.and, .bin, 3, 4), (.or, .bin, 2, 3),
+   (.dcaret, .pow, 0, 0), (.caret, .pow, 0, 0),
+   (.plus, .pre, 0, 9), (.minus, .pre, 0, 9), (.not, .pre, 0, 4)]
 
 /-! ## Number literals
 
@@ -488,7 +492,7 @@ def modelicaData : TblData :=
 `int(text)` first (accepted exactly for pure digit strings here) and `float(text)` otherwise. -/
 
 def digitVal? (c : Char) : Option Nat :=
-  if '0' ≤ c ∧ c ≤ '9' then some (c.toNat - '0'.toNat) else none
+  if c.isDigit then some (c.toNat - '0'.toNat) else none
 
 /-- Horner evaluation of a digit string; `none` on a non-digit or the empty string -/
 def digitsVal? (cs : List Char) : Option Nat :=
@@ -512,31 +516,32 @@ def splitAt1 (p : Char → Bool) : List Char → List Char × Option (List Char)
       let (a, b) := splitAt1 p cs
       (c :: a, b)
 
+/-- (value of the fraction digits, their number); a missing or empty fraction part counts as `0` -/
+def fracOf : Option (List Char) → Option (Nat × Nat)
+  | none => some (0, 0)
+  | some [] => some (0, 0)
+  | some ds => (digitsVal? ds).map fun v => (v, ds.length)
+
+/-- value of the exponent part `[+|-] digits` -/
+def expoOf : Option (List Char) → Option Int
+  | none => some 0
+  | some ('+' :: ds) => (digitsVal? ds).map Int.ofNat
+  | some ('-' :: ds) => (digitsVal? ds).map fun v => - Int.ofNat v
+  | some ds => (digitsVal? ds).map Int.ofNat
+
 def litValue (lexeme : String) : Option Lit :=
   let cs := lexeme.toList
   let (mant, ex) := splitAt1 (fun c => c == 'e' || c == 'E') cs
   let (ip, fp) := splitAt1 (fun c => c == '.') mant
-  match digitsVal? ip with
-  | none => none
-  | some iv =>
-    let frac : Option (Nat × Nat) :=      -- (value of the fraction digits, their number)
-      match fp with
-      | none => some (0, 0)
-      | some [] => some (0, 0)
-      | some ds => (digitsVal? ds).map fun v => (v, ds.length)
-    let expo : Option Int :=
-      match ex with
-      | none => some 0
-      | some ('+' :: ds) => (digitsVal? ds).map Int.ofNat
-      | some ('-' :: ds) => (digitsVal? ds).map fun v => - Int.ofNat v
-      | some ds => (digitsVal? ds).map Int.ofNat
-    match frac, expo with
-    | some (fv, fl), some e =>
-      some { isInt := fp.isNone && ex.isNone,
-             value := ((iv : Rat) + (fv : Rat) / ((10 ^ fl : Nat) : Rat)) * pow10 e }
-    | _, _ => none
+  match digitsVal? ip, fracOf fp, expoOf ex with
+  | some iv, some (fv, fl), some e =>
+    some { isInt := fp.isNone && ex.isNone,
+           value := ((iv : Rat) + (fv : Rat) / ((10 ^ fl : Nat) : Rat)) * pow10 e }
+  | _, _, _ => none
 
-/-- decimal digits of a natural number, most significant first -/
-def natDigits (n : Nat) : List Char := (Nat.toDigits 10 n)
+/-- the last `k` decimal digits of `v`, most significant first (a zero-padded fraction part) -/
+def padDigits : Nat → Nat → List Char
+  | 0, _ => []
+  | k+1, v => padDigits k (v / 10) ++ [Nat.digitChar (v % 10)]
 
 end PymocaVerif.ExprGrammar
